@@ -48,13 +48,30 @@ impl SpawnCfg {
 
 /// Spawns a `Probe` through the public builder.
 pub fn spawn_probe(role: u8, cfg: SpawnCfg) -> OwningAddr<P> {
+    spawn_probe_ordered(role, cfg, 0)
+}
+
+/// ... with the timeout options given in one of the four orders the builder allows:
+/// 0 = timeout, fail_on_timeout before the mailbox; 1 = fail_on_timeout, timeout before it;
+/// 2 = timeout, fail_on_timeout after it; 3 = fail_on_timeout, timeout after it.
+pub fn spawn_probe_ordered(role: u8, cfg: SpawnCfg, order: u8) -> OwningAddr<P> {
     let mut b = hannibal::build(Probe::<0>::new(role));
     if let Some((t, fail)) = cfg.timeout {
-        b = b.timeout(Duration::from_millis(t as u64)).fail_on_timeout(fail);
+        let t = Duration::from_millis(t as u64);
+        match order {
+            0 => b = b.timeout(t).fail_on_timeout(fail),
+            1 => b = b.fail_on_timeout(fail).timeout(t),
+            _ => {}
+        }
     }
     let b = match cfg.mailbox {
         Mailbox::U => b.unbounded(),
         Mailbox::B(n) => b.bounded(n),
+    };
+    let b = match (cfg.timeout, order) {
+        (Some((t, fail)), 2) => b.timeout(Duration::from_millis(t as u64)).fail_on_timeout(fail),
+        (Some((t, fail)), 3) => b.fail_on_timeout(fail).timeout(Duration::from_millis(t as u64)),
+        _ => b,
     };
     match cfg.strat {
         Strat::Default => b.spawn_owning(),
